@@ -515,6 +515,39 @@ var builders = []builder{
 	}},
 	{"gen/v2_chunked_deep", buildDeepTree},
 	{"gen/compact_only", buildCompactOnly},
+	{"gen/v2_rank3", func(path string) error { // rank-3 datasets: contiguous (row-by-row hyperslab reader) and chunked
+		fw, err := hdf5.CreateForWrite(path, hdf5.CreateTruncate)
+		if err != nil {
+			return err
+		}
+		if d, err := fw.CreateDataset("/c3", hdf5.Float64, []uint64{4, 3, 4}); err == nil {
+			_ = d.Write(seq(48))
+		}
+		if d, err := fw.CreateDataset("/k3", hdf5.Int32, []uint64{4, 4, 4}, hdf5.WithChunkDims([]uint64{2, 2, 2})); err == nil {
+			v := make([]int32, 64)
+			for i := range v {
+				v[i] = int32(i)
+			}
+			_ = d.Write(v)
+		}
+		return fw.Close()
+	}},
+	{"gen/v2_wrapbase", func(path string) error { // one-element chunks: chunk origins are exact element offsets
+		fw, err := hdf5.CreateForWrite(path, hdf5.CreateTruncate)
+		if err != nil {
+			return err
+		}
+		if d, err := fw.CreateDataset("/w8", hdf5.Float64, []uint64{2, 2}, hdf5.WithChunkDims([]uint64{1, 1})); err == nil {
+			_ = d.Write([]float64{1, 2, 3, 4})
+		}
+		if d, err := fw.CreateDataset("/w4", hdf5.Int32, []uint64{2, 2}, hdf5.WithChunkDims([]uint64{1, 1})); err == nil {
+			_ = d.Write([]int32{1, 2, 3, 4})
+		}
+		if d, err := fw.CreateDataset("/w3", hdf5.Float64, []uint64{2, 2, 2}, hdf5.WithChunkDims([]uint64{1, 1, 1})); err == nil {
+			_ = d.Write(seq(8))
+		}
+		return fw.Close()
+	}},
 }
 
 // buildCompactOnly derives a small-to-read image with a COMPACT-layout dataset (the library cannot write that layout):
